@@ -76,12 +76,22 @@ def c02(tier):
         big.append({"cfg": {"k": "WelfordOnline", "n": n}, "unit": 1, "mode": "window", "eps": [1, 1000000000], "float": "f64",
                     "xs": shapes(rnd, n, -40, 40, 300), "k": 1, "extras": True})
     run.submit(p3_stream_job, "w-big", "C02", big)
+    sw = window_sweep(rnd, kinds)
+    run.submit(p3_stream_job, "w-sweep-a", "C02", sw[:len(sw) // 2])
+    run.submit(p3_stream_job, "w-sweep-b", "C02", sw[len(sw) // 2:])
     # decimal unit: same definitions on inputs k/10 (not exactly representable): the statement allows rounding noise
     # proportional to the magnitude; sqrt-type outputs amplify 1e-16 to 1e-8, hence 1e-6 here (C16's figure)
     run.submit(p1_job, "w-dec", "MC_Def", {"prop": "C02", "cfgs": cfgs(kinds, [2, 3]), "alphabet": [-7, 0, 3, 12], "unit": 10, "maxlen": 5 if tier == "quick" else 7, "extras": True,
                                    "eps": [1, 1000000]})
     return run.finish("every input sequence over the alphabet up to maxlen, for every listed view and window length; "
                       "non-trivial = states in which the definition fixes the answer (exact value, fixed-point value, None or hold)")
+
+SWEEP_NS = list(range(5, 21)) + [24, 31, 32, 33, 47, 48, 63, 64, 65, 66, 96, 127, 128, 129]
+def window_sweep(rnd, kinds, lo=-40, hi=40, ns=SWEEP_NS):
+    """one short recorded stream per (view, window length) over a dense set of window lengths (every length to 20, then the
+    neighbourhoods of 32, 48, 64, 96, 128): a defect tied to one particular length has nowhere to hide; sparsely judged for large N"""
+    return [{"cfg": {"k": k, "n": n}, "unit": 1, "mode": "window", "eps": [1, 1000000000], "float": "f64",
+             "xs": shapes(rnd, n, lo, hi, 2 * n + 24), "k": max(1, n // 16), "dense": [[n - 1, n + 3]]} for k in kinds for n in ns]
 
 def f32_job(run, prop, cf, alphabet, L, name="f32"):
     """the same definitions on the f32 instantiation of the views (T: Float is generic): 1e-4 relative"""
@@ -120,6 +130,7 @@ def c05(tier):
             big.append({"cfg": {"k": k, "n": n}, "unit": 1, "mode": "window", "eps": [1, 1000000000], "float": "f64", "xs": xs, "k": 3000,
                         "dense": [[0, 60], [50 + 250, 50 + 262], [50 + m - 4, 50 + m + 50]]})
     run.submit(p3_stream_job, "rsi-big", "C05", big)
+    run.submit(p3_stream_job, "rsi-sweep", "C05", window_sweep(rnd, kinds))
     # over what an inner view delivers: a withheld first value (Sma), repeated values (a clip), held values (Roc)
     chn = [dict(c, c=[i]) for c in cfgs(kinds, [2, 3]) for i in (sma(2), {"k": "GTE", "v": [1, 1]}, {"k": "Roc", "n": 1})]
     run.submit(p1_job, "rsi-chain", "MC_Def", {"prop": "C05", "cfgs": chn, "alphabet": [-2, 0, 1, 3], "unit": 1, "maxlen": 6})
@@ -152,6 +163,7 @@ def c06(tier):
             big.append({"cfg": {"k": k, "n": n}, "unit": 1, "mode": "window", "eps": [1, 1000000000], "float": "f64",
                         "xs": shapes(rnd, n, -30, 30, 3 * n + 40), "k": kk, "dense": [[n - 2, n + 3]]})
     run.submit(p3_stream_job, "trend-big", "C06", big)
+    run.submit(p3_stream_job, "trend-sweep", "C06", window_sweep(rnd, kinds, lo=-30, hi=30, ns=[n for n in SWEEP_NS if n <= 66]))
     f32_job(run, "C06", cfgs(kinds, [3, 4]), [-2, 0, 1, 3], 6)
     return run.finish(RULE_DEF + "; plus recorded streams at larger N validated on the ghost window (P3)")
 
